@@ -128,10 +128,10 @@ func advance(t *Tape) Step {
 // genHistory: the shared sequential-history generator. weights select the op mix of a profile.
 type mix struct {
 	authz, hybrid, redeem, redeemBad, refresh, refreshOld, refreshForeign, introspect, revoke, revokeBad, advance, password, cc int
-	device, par, jwtBearer, clientChange, rotate, implicit int
-	pkce int // percent of authorisations carrying a challenge
-	pkceBad int // percent of redemptions on PKCE grants using a bad verifier variant
-	mutate int // percent of introspections presenting a mutated credential
+	device, par, jwtBearer, clientChange, rotate, implicit                                                                      int
+	pkce                                                                                                                        int // percent of authorisations carrying a challenge
+	pkceBad                                                                                                                     int // percent of redemptions on PKCE grants using a bad verifier variant
+	mutate                                                                                                                      int // percent of introspections presenting a mutated credential
 }
 
 func genHistory(t *Tape, k *Knobs, m mix, n int) []Step {
